@@ -1,3 +1,663 @@
 package main
 
-func (e *Engine) replayR1(o *Obl, rf *ReplayFile) bool { return false }
+// R1: function-level replay of a solver model against the real code (go test -overlay on the snapshot).
+
+import (
+	"encoding/json"
+	"math"
+	"fmt"
+	"go/types"
+	"os"
+	"os/exec"
+	"path/filepath"
+	"strconv"
+	"strings"
+	"time"
+)
+
+type sx struct {
+	atom string
+	list []*sx
+}
+
+func parseSx(s string) []*sx {
+	var out []*sx
+	i := 0
+	var parse func() *sx
+	skip := func() {
+		for i < len(s) && (s[i] == ' ' || s[i] == '\n' || s[i] == '\t' || s[i] == '\r') {
+			i++
+		}
+	}
+	parse = func() *sx {
+		skip()
+		if i >= len(s) {
+			return nil
+		}
+		if s[i] == '(' {
+			i++
+			n := &sx{list: []*sx{}}
+			for {
+				skip()
+				if i >= len(s) {
+					return n
+				}
+				if s[i] == ')' {
+					i++
+					return n
+				}
+				c := parse()
+				if c == nil {
+					return n
+				}
+				n.list = append(n.list, c)
+			}
+		}
+		if s[i] == '"' {
+			j := i + 1
+			for j < len(s) && s[j] != '"' {
+				j++
+			}
+			a := s[i : j+1]
+			i = j + 1
+			return &sx{atom: a}
+		}
+		if s[i] == '|' {
+			j := i + 1
+			for j < len(s) && s[j] != '|' {
+				j++
+			}
+			a := s[i : j+1]
+			i = j + 1
+			return &sx{atom: a}
+		}
+		j := i
+		for j < len(s) && !strings.ContainsRune(" \n\t\r()", rune(s[j])) {
+			j++
+		}
+		a := s[i:j]
+		i = j
+		return &sx{atom: a}
+	}
+	for {
+		skip()
+		if i >= len(s) {
+			break
+		}
+		if s[i] == ')' {
+			i++
+			continue
+		}
+		n := parse()
+		if n == nil {
+			break
+		}
+		out = append(out, n)
+	}
+	return out
+}
+
+func (n *sx) String() string {
+	if n.list == nil {
+		return n.atom
+	}
+	var ps []string
+	for _, c := range n.list {
+		ps = append(ps, c.String())
+	}
+	return "(" + strings.Join(ps, " ") + ")"
+}
+
+func (n *sx) head() string {
+	if n.list != nil && len(n.list) > 0 && n.list[0].list == nil {
+		return n.list[0].atom
+	}
+	return n.atom
+}
+
+type r1ctx struct {
+	e       *Engine
+	strs    map[string]string // abstract Str value -> Go literal
+	known   map[string]string // abstract value -> literal of a known constant
+	nstr    int
+	objs    map[string]string
+	decls   []string
+	tagName map[int]string
+	ok      bool
+	heap    map[string]*sx
+	numeric map[string]string // Val model value -> numeric string literal the model wants it to parse as
+}
+
+func (c *r1ctx) goString(v *sx) string {
+	key := v.String()
+	if lit, ok := c.known[key]; ok {
+		return strconv.Quote(lit)
+	}
+	if lit, ok := c.strs[key]; ok {
+		return strconv.Quote(lit)
+	}
+	c.nstr++
+	lit := fmt.Sprintf("s%d", c.nstr)
+	c.strs[key] = lit
+	return strconv.Quote(lit)
+}
+
+func bitsOfFP(v *sx) (uint64, bool) {
+	// (fp #b0 #b... #b...) | (_ +zero 11 53) | (_ NaN 11 53) ...
+	if v.list != nil && len(v.list) == 4 && v.list[0].atom == "fp" {
+		parse := func(a string) (uint64, int) {
+			if strings.HasPrefix(a, "#b") {
+				u, _ := strconv.ParseUint(a[2:], 2, 64)
+				return u, len(a) - 2
+			}
+			if strings.HasPrefix(a, "#x") {
+				u, _ := strconv.ParseUint(a[2:], 16, 64)
+				return u, (len(a) - 2) * 4
+			}
+			return 0, 0
+		}
+		s, _ := parse(v.list[1].atom)
+		e, _ := parse(v.list[2].atom)
+		m, _ := parse(v.list[3].atom)
+		return s<<63 | e<<52 | m, true
+	}
+	if v.list != nil && len(v.list) >= 2 && v.list[0].atom == "_" {
+		switch v.list[1].atom {
+		case "+zero":
+			return 0, true
+		case "-zero":
+			return 1 << 63, true
+		case "+oo":
+			return 0x7ff0000000000000, true
+		case "-oo":
+			return 0xfff0000000000000, true
+		case "NaN":
+			return 0x7ff8000000000001, true
+		}
+	}
+	return 0, false
+}
+
+func intOfSx(v *sx) (int64, bool) {
+	if v.list != nil && len(v.list) == 2 && v.list[0].atom == "-" {
+		i, err := strconv.ParseInt(v.list[1].atom, 10, 64)
+		return -i, err == nil
+	}
+	i, err := strconv.ParseInt(v.atom, 10, 64)
+	return i, err == nil
+}
+
+func bvOfSx(v *sx) (uint64, bool) {
+	if strings.HasPrefix(v.atom, "#x") {
+		u, err := strconv.ParseUint(v.atom[2:], 16, 64)
+		return u, err == nil
+	}
+	if strings.HasPrefix(v.atom, "#b") {
+		u, err := strconv.ParseUint(v.atom[2:], 2, 64)
+		return u, err == nil
+	}
+	return 0, false
+}
+
+// goVal renders a model value of sort Val as a Go expression (package-qualified for package pkg).
+func (c *r1ctx) goVal(v *sx, pkg string) string {
+	q := func(p, n string) string {
+		if p == pkg {
+			return n
+		}
+		return p + "." + n
+	}
+	switch v.head() {
+	case "VNil":
+		return "nil"
+	case "VBool":
+		return v.list[1].atom
+	case "VF64":
+		if b, ok := bitsOfFP(v.list[1]); ok {
+			return fmt.Sprintf("math.Float64frombits(0x%x)", b)
+		}
+	case "VI64":
+		if b, ok := bvOfSx(v.list[1]); ok {
+			return fmt.Sprintf("int64(%d)", int64(b))
+		}
+	case "VInt":
+		if i, ok := intOfSx(v.list[1]); ok {
+			return fmt.Sprintf("int(%d)", i)
+		}
+	case "VStr":
+		if lit, ok := c.numeric[v.String()]; ok {
+			return strconv.Quote(lit)
+		}
+		return c.goString(v.list[1])
+	case "VRunes":
+		n := c.sliceLen(v.list[1])
+		return fmt.Sprintf("[]rune(%q)", strings.Repeat("x", n))
+	case "VArr":
+		return c.goArr(v.list[1])
+	case "VObj":
+		key := v.list[1].String()
+		if name, ok := c.objs[key]; ok {
+			return name
+		}
+		name := fmt.Sprintf("obj%d", len(c.objs))
+		c.objs[key] = name
+		c.decls = append(c.decls, fmt.Sprintf("%s := map[string]interface{}{}", name))
+		return name
+	case "VPtr":
+		tag, _ := intOfSx(v.list[1])
+		tn := c.tagName[int(tag)]
+		if strings.HasSuffix(tn, "interpreter.Function") && strings.HasPrefix(tn, "*") {
+			return "&" + q("interpreter", "Function") + "{Declaration: &ast.FunctionStmt{Name: token.Token{Lexeme: \"f\"}}, Closure: environment.NewEnvironment()}"
+		}
+	case "VStruct":
+		tag, _ := intOfSx(v.list[1])
+		tn := c.tagName[int(tag)]
+		if i := strings.LastIndex(tn, "."); i >= 0 && strings.Contains(tn, "/interpreter.") {
+			return q("interpreter", tn[i+1:]) + "{}"
+		}
+	}
+	c.ok = false
+	return "nil /* unrepresentable: " + v.String() + " */"
+}
+
+func (c *r1ctx) sliceLen(v *sx) int {
+	if v.head() == "mkSlice" && len(v.list) == 5 {
+		n, _ := intOfSx(v.list[3])
+		if n < 0 || n > 64 {
+			return 0
+		}
+		return int(n)
+	}
+	return 0
+}
+
+func (c *r1ctx) goArr(v *sx) string {
+	if v.head() != "mkSlice" || len(v.list) != 5 {
+		c.ok = false
+		return "nil"
+	}
+	ln, _ := intOfSx(v.list[3])
+	cp, _ := intOfSx(v.list[4])
+	if ln < 0 || ln > 64 {
+		ln = 0
+	}
+	if cp < ln || cp > 128 {
+		cp = ln
+	}
+	var elems []string
+	for k := int64(0); k < ln; k++ {
+		elems = append(elems, fmt.Sprintf("float64(%d)", k+1))
+	}
+	name := fmt.Sprintf("arr%d", len(c.decls))
+	c.decls = append(c.decls, fmt.Sprintf("%s := append(make([]interface{}, 0, %d), %s)", name, cp, strings.Join(elems, ", ")))
+	if len(elems) == 0 {
+		c.decls[len(c.decls)-1] = fmt.Sprintf("%s := make([]interface{}, 0, %d)", name, cp)
+	}
+	return name
+}
+
+// goParam renders a model value for a parameter of Go type t.
+func (c *r1ctx) goParam(v *sx, t types.Type, pkg string) string {
+	switch u := t.Underlying().(type) {
+	case *types.Interface:
+		return c.goVal(v, pkg)
+	case *types.Basic:
+		switch {
+		case u.Kind() == types.Bool:
+			return v.atom
+		case u.Kind() == types.Float64:
+			if b, ok := bitsOfFP(v); ok {
+				return fmt.Sprintf("math.Float64frombits(0x%x)", b)
+			}
+		case u.Kind() == types.Int64:
+			if b, ok := bvOfSx(v); ok {
+				return fmt.Sprintf("int64(%d)", int64(b))
+			}
+		case u.Info()&types.IsInteger != 0:
+			if i, ok := intOfSx(v); ok {
+				return fmt.Sprintf("%s(%d)", types.TypeString(t, func(p *types.Package) string {
+					if p.Name() == pkg {
+						return ""
+					}
+					return p.Name()
+				}), i)
+			}
+		case u.Kind() == types.String:
+			return c.goString(v)
+		}
+	case *types.Struct:
+		if n, ok := t.(*types.Named); ok && n.Obj().Name() == "Token" && len(v.list) == 5 {
+			ty, _ := intOfSx(v.list[1])
+			line, _ := intOfSx(v.list[4])
+			return fmt.Sprintf("token.Token{Type: token.TokenType(%d), Lexeme: %s, Literal: %s, Line: %d}", ty, c.goString(v.list[2]), c.goVal(v.list[3], pkg), line)
+		}
+		if u.NumFields() == 0 {
+			return types.TypeString(t, func(p *types.Package) string {
+				if p.Name() == pkg {
+					return ""
+				}
+				return p.Name()
+			}) + "{}"
+		}
+	case *types.Slice:
+		if isValSlice(t) {
+			// contents come from the heap model when available
+			return c.goArgList(v, pkg)
+		}
+	case *types.Pointer:
+		if n, ok := u.Elem().(*types.Named); ok && n.Obj().Name() == "Interpreter" {
+			if pkg == "interpreter" {
+				return "NewInterpreter()"
+			}
+			return "interpreter.NewInterpreter()"
+		}
+	}
+	c.ok = false
+	return "nil"
+}
+
+// goArgList renders a []interface{} parameter using the E_Val heap of the model for its cells.
+func (c *r1ctx) goArgList(v *sx, pkg string) string {
+	if v.head() != "mkSlice" || len(v.list) != 5 {
+		c.ok = false
+		return "nil"
+	}
+	ref, _ := intOfSx(v.list[1])
+	off, _ := intOfSx(v.list[2])
+	ln, _ := intOfSx(v.list[3])
+	if ln < 0 || ln > 16 {
+		c.ok = false
+		return "nil"
+	}
+	var elems []string
+	for k := int64(0); k < ln; k++ {
+		cell := c.heapCell("E_Val_0", ref, off+k)
+		if cell == nil {
+			elems = append(elems, "nil")
+			continue
+		}
+		elems = append(elems, c.goVal(cell, pkg))
+	}
+	return "[]interface{}{" + strings.Join(elems, ", ") + "}"
+}
+
+// heapCell evaluates (select (select H ref) idx) in the model when H was printed as nested store/const arrays.
+func (c *r1ctx) heapCell(comp string, ref, idx int64) *sx {
+	h := c.heap[comp]
+	if h == nil {
+		return nil
+	}
+	row := evalArray(h, ref)
+	if row == nil {
+		return nil
+	}
+	return evalArray(row, idx)
+}
+
+func evalArray(a *sx, idx int64) *sx {
+	for a != nil && a.list != nil {
+		switch a.head() {
+		case "store":
+			if len(a.list) != 4 {
+				return nil
+			}
+			if i, ok := intOfSx(a.list[2]); ok && i == idx {
+				return a.list[3]
+			}
+			a = a.list[1]
+		default:
+			// ((as const (Array ..)) v)
+			if len(a.list) == 2 && a.list[0].list != nil && a.list[0].head() == "as" {
+				return a.list[1]
+			}
+			return nil
+		}
+	}
+	return nil
+}
+
+func (e *Engine) replayR1(o *Obl, rf *ReplayFile) bool {
+	fe := o.fe
+	fn := fe.fn
+	if fn == nil || fn.Pkg == nil {
+		return false
+	}
+	// parse (get-value ...) output: the first s-expression after "sat"
+	out := rf.Model
+	i := strings.Index(out, "sat")
+	if i < 0 {
+		return false
+	}
+	forms := parseSx(out[i+3:])
+	if len(forms) == 0 || forms[0].list == nil {
+		return false
+	}
+	vals := map[string]*sx{}
+	for _, pr := range forms[0].list {
+		if pr.list != nil && len(pr.list) == 2 {
+			vals[pr.list[0].String()] = pr.list[1]
+		}
+	}
+	ctx := &r1ctx{e: e, strs: map[string]string{}, known: map[string]string{}, objs: map[string]string{}, tagName: map[int]string{}, ok: true, heap: map[string]*sx{}}
+	for k, v := range vals {
+		if strings.HasPrefix(k, "E_") || strings.HasPrefix(k, "G_") {
+			ctx.heap[k] = v
+		}
+	}
+	for i, n := range e.sorts.tagNames {
+		ctx.tagName[i+1] = n
+	}
+	ctx.numeric = map[string]string{}
+	for _, in := range fe.inputs {
+		if in.Sort != SVal {
+			continue
+		}
+		okv := vals["(ext.parsefloat.ok (trStr (vstr "+in.Sym+")))"]
+		fv := vals["(ext.parsefloat.val (trStr (vstr "+in.Sym+")))"]
+		pv := vals[in.Sym]
+		if okv != nil && okv.atom == "true" && fv != nil && pv != nil && pv.head() == "VStr" {
+			if b, ok := bitsOfFP(fv); ok {
+				x := math.Float64frombits(b)
+				if !math.IsNaN(x) && !math.IsInf(x, 0) {
+					ctx.numeric[pv.String()] = strconv.FormatFloat(x, 'f', -1, 64)
+				}
+			}
+		}
+	}
+	if v, ok := vals["str_empty"]; ok {
+		ctx.known[v.String()] = ""
+	}
+	for i, lit := range e.strOrder {
+		if v, ok := vals[fmt.Sprintf("strc_%d", i+1)]; ok {
+			ctx.known[v.String()] = lit
+		}
+	}
+	pkg := fn.Pkg.Pkg.Name()
+	var args []string
+	recvCall := ""
+	for idx, in := range fe.inputs {
+		v, ok := vals[in.Sym]
+		if !ok {
+			return false
+		}
+		p := fn.Params[idx]
+		expr := ctx.goParam(v, p.Type(), pkg)
+		if idx == 0 && fn.Signature.Recv() != nil {
+			recvCall = "(" + expr + ")."
+			continue
+		}
+		args = append(args, expr)
+	}
+	if !ctx.ok {
+		rf.Replay = map[string]string{"skipped": "a model value has no Go rendering"}
+		return false
+	}
+	flag := "false"
+	if v, ok := vals["G_utils_HadRuntimeError_0"]; ok && v.atom == "true" {
+		flag = "true"
+	}
+	call := recvCall + fn.Name() + "(" + strings.Join(args, ", ") + ")"
+	nres := fn.Signature.Results().Len()
+	lhs := ""
+	show := ""
+	if nres > 0 {
+		var names []string
+		for k := 0; k < nres; k++ {
+			names = append(names, fmt.Sprintf("r%d", k))
+			show += fmt.Sprintf("\tfmt.Printf(\"RESULT%d %%T %%#v\\n\", r%d, r%d)\n", k, k, k)
+		}
+		lhs = strings.Join(names, ", ") + " := "
+	}
+	test := fmt.Sprintf(`package %s
+
+import (
+	"fmt"
+	"math"
+	"testing"
+
+	"github.com/ah-naf/borno/ast"
+	"github.com/ah-naf/borno/environment"
+	"github.com/ah-naf/borno/token"
+	"github.com/ah-naf/borno/utils"
+)
+
+var _ = math.Pi
+var _ = ast.Literal{}
+var _ = environment.NewEnvironment
+var _ = token.EOF
+
+func TestReplay(t *testing.T) {
+	utils.HadRuntimeError = %s
+	utils.HadError = false
+	defer func() {
+		if r := recover(); r != nil {
+			fmt.Printf("PANIC %%v\n", r)
+		}
+	}()
+	%s
+	%s%s
+%s	fmt.Printf("FLAG %%v\n", utils.HadRuntimeError)
+}
+`, pkg, flag, strings.Join(ctx.decls, "\n\t"), lhs, call, show)
+	if pkg == "utils" || pkg == "token" || pkg == "ast" || pkg == "environment" {
+		// import cycles: these packages cannot import the others; keep only what is needed
+		test = strings.Replace(test, "\t\"github.com/ah-naf/borno/ast\"\n", "", 1)
+		test = strings.Replace(test, "\t\"github.com/ah-naf/borno/environment\"\n", "", 1)
+		test = strings.Replace(test, "var _ = ast.Literal{}\n", "", 1)
+		test = strings.Replace(test, "var _ = environment.NewEnvironment\n", "", 1)
+		if pkg == "utils" {
+			test = strings.Replace(test, "\t\"github.com/ah-naf/borno/utils\"\n", "", 1)
+			test = strings.ReplaceAll(test, "utils.", "")
+		}
+		if pkg == "token" {
+			return false
+		}
+	}
+	pkgDir := e.snapDir
+	rel := strings.TrimPrefix(strings.TrimPrefix(fn.Pkg.Pkg.Path(), repoModule), "/")
+	if rel != "" {
+		pkgDir = filepath.Join(e.snapDir, rel)
+	}
+	testFile := filepath.Join(e.scratch, "replay_test.go")
+	os.WriteFile(testFile, []byte(test), 0o644)
+	ov := map[string]map[string]string{"Replace": {filepath.Join(pkgDir, "zz_replay_test.go"): testFile}}
+	ovb, _ := json.Marshal(ov)
+	ovFile := filepath.Join(e.scratch, "overlay.json")
+	os.WriteFile(ovFile, ovb, 0o644)
+	cmd := exec.Command("go", "test", "-overlay", ovFile, "-vet=off", "-count=1", "-timeout", "60s", "-run", "^TestReplay$", "-v", ".")
+	cmd.Dir = pkgDir
+	cmd.Env = append(os.Environ(), "GOFLAGS=-mod=mod", "GOPROXY=off", "GOSUMDB=off", "GOTOOLCHAIN=local")
+	done := make(chan struct{})
+	var outb []byte
+	go func() { outb, _ = cmd.CombinedOutput(); close(done) }()
+	select {
+	case <-done:
+	case <-time.After(90 * time.Second):
+		if cmd.Process != nil {
+			cmd.Process.Kill()
+		}
+		<-done
+	}
+	res := string(outb)
+	rf.Replay = map[string]string{"call": call, "test": test, "output": truncate(res, 6000)}
+	if strings.HasPrefix(o.Kind, "safety.") {
+		return strings.Contains(res, "PANIC ")
+	}
+	// postconditions: re-evaluate the contract on the observed outputs
+	return e.confirmPost(o, rf, vals, res, fe)
+}
+
+// confirmPost fixes the inputs to the model's values and the outputs to the observed ones and asks whether the
+// postcondition is false: `sat` confirms the violation on the real code.
+func (e *Engine) confirmPost(o *Obl, rf *ReplayFile, vals map[string]*sx, res string, fe *FuncEnc) bool {
+	if strings.Contains(res, "PANIC ") {
+		rf.Replay["verdict"] = "the real function panics on the model's input"
+		return true
+	}
+	var eqs []string
+	for _, in := range fe.inputs {
+		if v, ok := vals[in.Sym]; ok && !strings.Contains(v.String(), "!val!") {
+			eqs = append(eqs, fmt.Sprintf("(assert (= %s %s))", in.Sym, v.String()))
+		}
+	}
+	if v, ok := vals["G_utils_HadRuntimeError_0"]; ok {
+		eqs = append(eqs, "(assert (= G_utils_HadRuntimeError_0 "+v.atom+"))")
+	}
+	// observed outputs of simple kinds
+	obs := 0
+	for _, line := range strings.Split(res, "\n") {
+		line = strings.TrimSpace(line)
+		if !strings.HasPrefix(line, "RESULT0 ") {
+			continue
+		}
+		f := strings.Fields(line)
+		if len(f) < 3 {
+			continue
+		}
+		var term string
+		switch f[1] {
+		case "float64":
+			if x, err := strconv.ParseFloat(f[2], 64); err == nil {
+				term = "(VF64 " + tF64(x).S + ")"
+			} else if f[2] == "NaN" {
+				term = "(VF64 (_ NaN 11 53))"
+			} else if f[2] == "+Inf" {
+				term = "(VF64 (_ +oo 11 53))"
+			} else if f[2] == "-Inf" {
+				term = "(VF64 (_ -oo 11 53))"
+			}
+		case "bool":
+			term = "(VBool " + f[2] + ")"
+		case "<nil>":
+			term = "VNil"
+		case "int64":
+			if x, err := strconv.ParseInt(f[2], 10, 64); err == nil {
+				term = "(VI64 " + tBV64(uint64(x)).S + ")"
+			}
+		case "int":
+			if x, err := strconv.ParseInt(f[2], 10, 64); err == nil {
+				term = "(VInt " + tInt(x).S + ")"
+			}
+		}
+		if term != "" {
+			rf.Replay["observed_result"] = term
+			obs++
+			// the result symbol is the last `result_N` definition of the function
+			for k := len(fe.items) - 1; k >= 0; k-- {
+				if strings.HasPrefix(fe.items[k].Def, "result_") && strings.Contains(fe.items[k].Text, " Val ") {
+					eqs = append(eqs, fmt.Sprintf("(assert (= %s %s))", fe.items[k].Def, term))
+					break
+				}
+			}
+		}
+	}
+	script := stripQuantified(o.script(e.header()))
+	script = strings.Replace(script, "(check-sat)", strings.Join(eqs, "\n")+"\n(check-sat)", 1)
+	file := filepath.Join(e.scratch, "confirm.smt2")
+	os.WriteFile(file, []byte(script), 0o644)
+	cmd := exec.Command("z3-new", "-T:30", file)
+	outb, _ := cmd.CombinedOutput()
+	first := strings.TrimSpace(strings.SplitN(strings.TrimSpace(string(outb)), "\n", 2)[0])
+	rf.Replay["confirm"] = "inputs fixed to the model, outputs fixed to the observed values, postcondition negated: " + first
+	return first == "sat" && obs > 0
+}
